@@ -175,6 +175,20 @@ class InstRec(System):
         return new
 
 
+class SlotRec(System):
+    """A recording system of a class that declares __slots__ all the way down (the idiom of every class in the package):
+    its instances have no __dict__ - they hold what their classes declare and nothing else."""
+    __slots__ = ("world", "uid")
+
+    def __init__(self, spec, model, world):
+        spec = spec_defaults(spec)
+        super().__init__(spec["id"], model, priority=spec["prio"], frequency=spec["freq"], start=spec["start"], end=spec["end"])
+        self.world = world
+
+    def execute(self):
+        self.world.on_execute(self)
+
+
 OWN_ATTRS = {"active": False, "enabled": False, "paused": True, "running": False, "done": True, "complete": True, "removed": True,
              "skip": True, "dirty": True, "pooled": False, "registered": False, "index": 0, "slot": -1, "order": None, "position": None,
              "key": None, "name": "", "state": 0, "status": None, "cache": None, "owner": None, "parent": None, "next": None,
@@ -263,8 +277,8 @@ def gen_flavour(rng):
         return {"value_eq": False, "syskind": rng.choice(["own_order", "mixin_execute", "instance_execute"]), "returns": None}
     if r < 0.56:
         return {"value_eq": False, "dunders": gen_dunders(rng), "returns": ret}
-    if r < 0.64:
-        return {"value_eq": False, "syskind": "own_attributes", "returns": ret}
+    if r < 0.70:
+        return {"value_eq": False, "syskind": rng.choice(["own_attributes", "slotted"]), "returns": ret}
     return {"value_eq": False, "returns": ret}
 
 
@@ -284,7 +298,7 @@ def rec_class(sc, ctx=None):
         if ctx is not None:
             ctx.probe("systems_that_are_bundled_collectors" if sc["syskind"] in ("file", "collector") else "systems_of_kind_" + sc["syskind"])
         return {"file": RecFileSys, "collector": RecCollectorSys, "own_order": LtRec, "mixin_execute": MixRec, "instance_execute": InstRec,
-                "own_attributes": OwnAttrRec}[sc["syskind"]]
+                "own_attributes": OwnAttrRec, "slotted": SlotRec}[sc["syskind"]]
     if sc.get("dunders"):
         if ctx is not None:
             ctx.probe("systems_with_special_methods_of_their_own")
